@@ -60,7 +60,17 @@ def concatenate_order(ctx: Ctx) -> list[Ob]:
             elif m.args and any(isinstance(x, ast.Attribute) and x.attr == "outputs" for x in ast.walk(m.args[0])):
                 out.append(ok("R7e", fq, f"outputs-order#{k}", "operand outputs appended in declared order", lm))
             else:
-                out.append(unres("R7e", fq, f"outputs-order#{k}", f"{unparse(m)[:80]}: not derived from <operand>.outputs", lm))
+                # appended element by element: the order is that of the innermost loop around the call
+                inner = None
+                for lp in ast.walk(loop):
+                    if isinstance(lp, ast.For) and lp is not loop and any(x is m for x in ast.walk(lp)):
+                        inner = lp  # the last one found by the walk that contains m is the innermost
+                if inner is not None and any(isinstance(x, ast.Attribute) and x.attr == "outputs" for x in ast.walk(inner.iter)) and not _reorders(inner.iter):
+                    out.append(ok("R7e", fq, f"outputs-order#{k}", f"outputs appended while iterating {unparse(inner.iter)}", lm))
+                elif inner is not None:
+                    out.append(viol("R7e", fq, f"outputs-order#{k}", f"{unparse(m)[:60]} runs inside the loop over `{unparse(inner.iter)[:50]}`: an operand's outputs are stacked in the order of that traversal, not in the order the operand declares them", lm))
+                else:
+                    out.append(unres("R7e", fq, f"outputs-order#{k}", f"{unparse(m)[:80]}: not derived from <operand>.outputs", lm))
     if sites == 0:
         raise AnalysisError("vanished anchor: the loop of concatenate that collects the operands' outputs")
     return out
